@@ -2,8 +2,11 @@ use crate::engine::{ReplayEntry, Run};
 
 pub mod c01;
 pub mod c03;
+pub mod c09;
+pub mod c10;
 pub mod c11;
 pub mod c12;
+pub mod c13;
 
 pub struct Property {
     pub id: &'static str,
@@ -15,8 +18,11 @@ pub fn all() -> Vec<Property> {
     vec![
         Property { id: "C01", run: c01::run, replays: c01::replays },
         Property { id: "C03", run: c03::run, replays: c03::replays },
+        Property { id: "C09", run: c09::run, replays: c09::replays },
+        Property { id: "C10", run: c10::run, replays: c10::replays },
         Property { id: "C11", run: c11::run, replays: c11::replays },
         Property { id: "C12", run: c12::run, replays: c12::replays },
+        Property { id: "C13", run: c13::run, replays: c13::replays },
     ]
 }
 
